@@ -280,7 +280,7 @@ def run(ctx):
                 and all(SR.before(w, fin[0]) for w in whiles)
     ctx.add('Q4.search.returns-entries-and-final-result', SR.path, loc(SR.root), okr, 'search() does not return (collected entries, finish() result)')
 
-    EN = 'ldap3::<adapters::EntriesOnly as adapters::Adapter<\'a, S, A>>::'
+    EN = '<ldap3::adapters::EntriesOnly as ldap3::adapters::Adapter<\'a, S, A>>::'
     E = hirq.Body(f, f.body(EN + 'next'))
     ctx.analysed['bodies'].add(E.path)
     I = absx.Interp(f, E, unroll=1)
